@@ -4,5 +4,7 @@ let table : (string * (Model.n list -> Model.n list)) list = [
   ("quorum", Model.run_quorum);
   ("memstorage", Model.run_memstorage);
   ("confchange", Model.run_confchange);
+  ("raftlog", Model.run_raftlog);
   ("node", Model.run_node);
+  ("pelection", Model.run_pelection);
 ]
